@@ -19,3 +19,44 @@ package hopserver
 //@   loop 1
 //@     invariant forall k int :: 0 <= k && k <= rangeindex ==>
 //@       !globR(arr(vhosts[k].Pattern), off(vhosts[k].Pattern), arr(name), off(name), len(vhosts[k].Pattern), len(name))
+
+// ---- C05: login only by a listed key, failing closed ---------------------
+// AuthorizeKey returns nil only on a path where the authorized-keys file was
+// parsed WITHOUT error and Allowed (= list membership, proved in package core)
+// returned true for exactly the parsed list and exactly this key.
+//@ func (s *HopServer) AuthorizeKey(user string, publicKey keys.DHPublicKey) (err error)
+//@   property C05
+//@   ensures err == nil ==> called(core.ParseAuthorizedKeys) && resultof(core.ParseAuthorizedKeys, err) == nil
+//@   ensures err == nil ==> called(core.AuthorizedKeys.Allowed) && resultof(core.AuthorizedKeys.Allowed, result)
+//@   ensures err == nil ==> argof(core.AuthorizedKeys.Allowed, pk) == publicKey
+//@   ensures err == nil ==> ref(argof(core.AuthorizedKeys.Allowed, akeys)) == ref(resultof(core.ParseAuthorizedKeys, authorized)) &&
+//@                          off(argof(core.AuthorizedKeys.Allowed, akeys)) == off(resultof(core.ParseAuthorizedKeys, authorized)) &&
+//@                          len(argof(core.AuthorizedKeys.Allowed, akeys)) == len(resultof(core.ParseAuthorizedKeys, authorized))
+
+// A grant-based login succeeds only with grants enabled and only by consuming
+// (RemoveAuthgrants, proved in package authgrants) the entry stored for exactly
+// this user and key; the key is then also dropped from the transport key set.
+//@ func (s *HopServer) AuthorizeKeyAuthGrant(user string, publicKey keys.DHPublicKey) (ags []authgrants.Authgrant, err error)
+//@   property C05 C07
+//@   ensures err == nil ==> old(s.config.EnableAuthgrants)
+//@   ensures err == nil ==> called(authgrants.AuthgrantMapSync.RemoveAuthgrants) && resultof(authgrants.AuthgrantMapSync.RemoveAuthgrants, err) == nil
+//@   ensures err == nil ==> argof(authgrants.AuthgrantMapSync.RemoveAuthgrants, key) == publicKey &&
+//@        arr(argof(authgrants.AuthgrantMapSync.RemoveAuthgrants, user)) == arr(user) && off(argof(authgrants.AuthgrantMapSync.RemoveAuthgrants, user)) == off(user) &&
+//@        len(argof(authgrants.AuthgrantMapSync.RemoveAuthgrants, user)) == len(user)
+//@   ensures err == nil ==> argof(authgrants.AuthgrantMapSync.RemoveAuthgrants, m) == old(s.agMap)
+//@   ensures err == nil ==> ref(ags) == ref(resultof(authgrants.AuthgrantMapSync.RemoveAuthgrants, ags)) && off(ags) == off(resultof(authgrants.AuthgrantMapSync.RemoveAuthgrants, ags)) &&
+//@        len(ags) == len(resultof(authgrants.AuthgrantMapSync.RemoveAuthgrants, ags))
+//@   ensures err == nil ==> called(authkeys.SyncAuthKeySet.RemoveKey) && argof(authkeys.SyncAuthKeySet.RemoveKey, pk) == publicKey
+//@   ensures err != nil ==> len(ags) == 0
+
+// The session is authorised only if AuthorizeKey accepted the (user, key) pair,
+// or - with grants enabled - AuthorizeKeyAuthGrant accepted the same pair.
+//@ func (sess *hopSession) checkAuthorization() (ok bool)
+//@   property C05
+//@   ensures ok ==> called(hopserver.HopServer.AuthorizeKey)
+//@   ensures ok ==> (resultof(hopserver.HopServer.AuthorizeKey, err) == nil ||
+//@        (called(hopserver.HopServer.AuthorizeKeyAuthGrant) && resultof(hopserver.HopServer.AuthorizeKeyAuthGrant, err) == nil &&
+//@         argof(hopserver.HopServer.AuthorizeKeyAuthGrant, publicKey) == argof(hopserver.HopServer.AuthorizeKey, publicKey) &&
+//@         arr(argof(hopserver.HopServer.AuthorizeKeyAuthGrant, user)) == arr(argof(hopserver.HopServer.AuthorizeKey, user)) &&
+//@         off(argof(hopserver.HopServer.AuthorizeKeyAuthGrant, user)) == off(argof(hopserver.HopServer.AuthorizeKey, user)) &&
+//@         len(argof(hopserver.HopServer.AuthorizeKeyAuthGrant, user)) == len(argof(hopserver.HopServer.AuthorizeKey, user))))
